@@ -86,7 +86,7 @@ def judge(r, stream, label, src, rs):
         if rs[j].startswith("ok:"):
             for i in range(j):
                 if rs[i] != rs[j]:
-                    who = builtin_of(stream, label) or (label.split(":")[0] + ":" + src if stream in ("site", "fmt") else "program")
+                    who = builtin_of(stream, label) or (label.split(":")[0] + ":" + src if stream in ("site", "fmt", "stmt") else "program")
                     weak = rs[i] if not rs[i].startswith(("ok:", "panic:")) else rs[i].split(":")[0] + ":different-output" if rs[i].startswith("ok:") else "panic"
                     r.oracle_failure(case, f"{MODES[j]} renders {dec(rs[j])!r} but the weaker mode {MODES[i]} gives {dec(rs[i])!r}",
                                      f"mono:{stream}:{who}:{MODES[j]}-ok/{MODES[i]}-{weak}")
@@ -109,7 +109,9 @@ def run(r):
     r.rule = ("site templates (documented matrix, default + custom formatter); every builtin filter/test/function with a "
               "valid call in which each argument position (and pairs, arities, kwargs, block forms) is replaced by undefined / "
               "silent undefined / none / [x, undefined] / {'k': undefined} / a missing attribute; every builtin x receiver x "
-              "argument lists of arity 0..2 (thorough: 3) over a pool of 11 operands; seeded random programs of the core "
+              "argument lists of arity 0..2 (thorough: 3) over a pool of 11 operands; ~130 statement forms with an undefined "
+              "operand (include/extends/import/macro/call/autoescape/unpacking/recursive loops/loop.*/namespace/functions/"
+              "methods/literals); seeded random programs of the core "
               "fragment (print, if/elif/else, for/else, set, set-block, with, attribute/item chains, slices, not/and/or, "
               "ternary with and without else, comparisons and chains, in, ~, + - *, tests, filters; the `rich` half adds macros, "
               "filter blocks, loop.*, range, dict(**), more builtins). Each case = 4 renders. A case is non-trivial when the "
